@@ -2,7 +2,7 @@
 From Coq Require Import List ZArith NArith Bool.
 Import ListNotations.
 From GS Require Import Num EventLoop Kernel.
-From GS.Proofs Require Import Aux EventLoopP KernelP KernelP2.
+From GS.Proofs Require Import Aux EventLoopP KernelP KernelP2 DriveP.
 
 (** Every executed event lies within the bounds: its timestamp does not exceed the duration and
     its ordinal is below the iteration limit — for every four hooks, every bounds. *)
@@ -15,6 +15,17 @@ Theorem C04_executed_within_bounds :
 Proof.
   intros F A OL P H T hk c fuel s Hinv. pose proof (k_run_props A OL hk c fuel s Hinv) as Hp.
   destruct (k_run A hk c fuel s) as [[s' items] fin]. destruct Hp as (_ & _ & _ & Hb & _). exact Hb.
+Qed.
+
+Theorem C04_any_driving_within_bounds :
+  forall (F : Type) (A : ArithOps F), OrderLaws A -> forall (P H T : Type) (hk : hooks F P H T) (c : kcfg F)
+         (ops : list (kdrv F P H T)) (s : kstate F P H),
+    k_inv A s ->
+    let '(_, items) := k_drive A hk c ops s in
+    forall i ts p, In (i, ts, p) (execs items) -> dur_ok A c ts /\ iter_ok c i.
+Proof.
+  intros F A OL P H T hk c ops s Hinv. pose proof (k_drive_props A OL hk c ops s Hinv) as Hp.
+  destruct (k_drive A hk c ops s) as [s' items]. destruct Hp as (_ & _ & _ & Hb). exact Hb.
 Qed.
 
 (** The run goes on exactly while an eligible event remains: is_simulation_done is false iff the
@@ -79,6 +90,7 @@ Proof.
 Qed.
 
 Print Assumptions C04_executed_within_bounds.
+Print Assumptions C04_any_driving_within_bounds.
 Print Assumptions C04_done_iff.
 Print Assumptions C04_step_result.
 Print Assumptions C04_run_is_loop_while_not_done.
